@@ -70,7 +70,7 @@ pub fn e2(id: &str) -> Option<E2Def> {
             mode: Mode::Crash,
             profile: e2_profile_base(),
             quick_programs: 96,
-            thorough_programs: 1600,
+            thorough_programs: 480,
             quick_points: 48,
             rule: "for each generated program (single writes, batches, transactions of both flavours, clears, keyspace create/delete, rotate/flush/compact/major-compact steps, journal rotation+eviction via position scale, reopen inside the program) one count run under the LD_PRELOAD interposer, then a real SIGKILL before tracked call n (thorough: every n; quick: a stratified sample incl. every journal call) and torn variants (first/middle/last byte) of journal writes; recovery by the real code on the real directory; oracle = recovered state equals S_p for acked <= p <= started, second reopen identical, new writes supersede and survive a further reopen; non-trivial = kill point strictly inside an operation (or inside a flush/compaction/rotation/recovery step) with >=1 operation acknowledged before; distinct by (program hash, n, t)",
             assumptions: vec![
@@ -143,7 +143,7 @@ pub fn e2(id: &str) -> Option<E2Def> {
                 mode: Mode::Evict,
                 profile: p,
                 quick_programs: 128,
-                thorough_programs: 2000,
+                thorough_programs: 1000,
                 quick_points: 14,
                 rule: "programs over 2-3 keyspaces with different memtable sizes, journal position scale 64000 (journal rotation after ~1 KB, in fjall's unmodified Flush path), generated orders of rotate / worker-step / clear / keyspace deletion, ending with 'rotate + flush every keyspace'; SIGKILL immediately after and immediately before EVERY unlink of a *.jnl file plus sampled generic points; oracle = recovery yields the full acknowledged state (prefix model, p >= acknowledged); log invariants: unlinked journal ids strictly increasing, always the smallest id present, never the active journal; at the end journal_count() == 1 and exactly one *.jnl on disk; non-trivial = kill adjacent to a journal unlink in a program with >= 2 journal rotations; distinct by (program hash, kill index)",
                 assumptions: vec!["max_journaling_size stays at its default (the straggler path needs >= 64 MiB of journals and is not reached)"],
@@ -166,7 +166,7 @@ pub fn e2(id: &str) -> Option<E2Def> {
                 mode: Mode::Fault,
                 profile: p,
                 quick_programs: 96,
-                thorough_programs: 1200,
+                thorough_programs: 400,
                 quick_points: 40,
                 rule: "programs of inserts, removes, batches (incl. records larger than the 8 KiB journal buffer), clears, persist calls, rotations/flush steps (journal rotation via position scale), automatic journal persist (under manual persist an acknowledged write is by contract not yet persisted), all three database flavours; for journal-file call index n (thorough: every n; quick: a seeded sample) x fault kind {EIO on write, ENOSPC on write, true short write then ENOSPC, EIO on fsync/fdatasync} x {one-shot, sticky}, plus plain short writes (half of the bytes accepted, no error; once or on every write: nothing may fail and everything acknowledged must be recovered) the program runs to completion under the interposer; oracle: (1) the foreground write operation during which the fault fired returns an error, (2) every write-kind operation attempted afterwards returns an error, (3) after a fault-free reopen the state equals the acknowledged state or that plus the whole failed operation; non-trivial = the fault fired inside an operation and >= 1 further write was attempted afterwards; distinct by (program hash, fault spec)",
                 assumptions: vec![
